@@ -85,6 +85,7 @@ WEIGHTS = {"features": 7, "update_attrs": 3, "paint": 5, "scenario": 0.7, "prim_
 def cfg_fn(rng):
     cfg = gen.random_config(rng, p3d=0.15, ellipse3d=True)
     cfg.custom = False
+    cfg.custom_annotator = rng.random() < 0.2
     return cfg
 
 
